@@ -89,7 +89,7 @@ def q_lemmas(chk):
     Q = [2 * PI / lam * (ei[i] - ef[i]) for i in range(3)]
     # |e_i - e_f|^2 = 2 - 2 e_i.e_f ; with cos(2theta) = e_i.e_f (two_theta contract, unit beams) and 1 - cos 2a = 2 sin^2 a
     chk.prove(f'{P}/|ei-ef|^2==2-2ei.ef', unit, norm2([ei[i] - ef[i] for i in range(3)]) == 2 - 2 * dotz(ei, ef))
-    chk.trust('trigonometric identity 1 - cos(2a) == 2 sin(a)^2 (instantiated)')
+    chk.textbook('trigonometric identity 1 - cos(2a) == 2 sin(a)^2 (instantiated)', ['one_sub_cos_two'])
     d2 = R('d2')
     chk.prove(f'{P}/norm^2==(4 pi sin(theta)/lambda)^2', [lam > 0, PI > 3, d2 == 2 - 2 * c, 1 - c == 2 * s * s],
               (2 * PI / lam) * (2 * PI / lam) * d2 == (4 * PI * s / lam) * (4 * PI * s / lam))
